@@ -438,10 +438,26 @@ static void do_restart(void)
     memcpy(RamArena, RamInit, sizeof RamArena);
     memcpy(M.ram, RamInit, sizeof M.ram);
     CONodeInit(&Node, &Spec);
+    if (mc_opt("apireset", 0)) {
+        /* --opt apireset=1: between CONodeInit and CONodeStart the application writes tentative values into every group and then asks for a
+         * reset node through the API (CONmtReset): the groups have to come back from NVM exactly as an NMT reset of a started node brings them back */
+        step_end();
+        mc_log("    restart, part 1 (CONodeInit): node error %d\n", (int)X.err);
+        after_load("restart (CONodeInit)", "para-ram-after-restart", 1, 1);
+        if (X.cfail) return;
+        for (int g = 0; g < NG; g++) { RamArena[roff[g]] ^= 0x5A; M.ram[roff[g]] ^= 0x5A; }
+        step_begin();
+        CONmtReset(&Node.Nmt, CO_RESET_NODE);
+        step_end();
+        mc_log("    CONmtReset(CO_RESET_NODE) before CONodeStart: node error %d\n", (int)X.err);
+        after_load("API reset node before the node is started", "para-ram-after-reset", 1, 1);
+        if (X.cfail) return;
+        step_begin();
+    }
     CONodeStart(&Node);
     step_end();
     mc_log("    restart (CONodeInit + CONodeStart): node error %d\n", (int)X.err);
-    after_load("restart", "para-ram-after-restart", 1, 1);
+    if (!mc_opt("apireset", 0)) after_load("restart", "para-ram-after-restart", 1, 1);
     if (!X.cfail && CONmtGetMode(&Node.Nmt) != CO_PREOP && X.nshort == 0) FAIL("para-verdict", "node not pre-operational after a fault-free restart");
 }
 
